@@ -79,7 +79,13 @@ func init() {
 					ues[g] = ue
 				}
 				mu.Unlock()
-				out, err := tglib.EncodeNasPduWithSecurity(ue, pdu, nas.SecurityHeaderTypeIntegrityProtectedAndCiphered, true, i == 0)
+				msg := pdu
+				if i%3 == 1 {
+					// a long UL NAS TRANSPORT (payload container of 1.5 - 2.2 kB): ciphering and MAC computation of different UEs overlap for long
+					n := 1500 + 100*(g%8)
+					msg = append([]byte{0x7e, 0x00, 0x67, 0x01, byte(n >> 8), byte(n)}, bytes.Repeat([]byte{byte(g), byte(i), 0x5a}, n/3+1)[:n]...)
+				}
+				out, err := tglib.EncodeNasPduWithSecurity(ue, msg, nas.SecurityHeaderTypeIntegrityProtectedAndCiphered, true, i == 0)
 				if err != nil {
 					return "err:" + err.Error()
 				}
